@@ -13,7 +13,7 @@ int verif_thrown;
 #define VERIF_THROW_VOID do { verif_thrown = 1; return; } while (0)
 
 enum { VS_LIT = 1, VS_EXPR, VS_EXPR_TAIL, VS_SYMNAME, VS_NUM, VS_IDREF, VS_NUMCAT, VS_SELECT, VS_OTHER, VS_PREFIX5 };
-enum { F_IS_ONE = 1, F_ONE_AND_PREFIX = 2, F_IS_ERR = 4, F_IS_LPMIN = 8 };
+enum { F_IS_ONE = 1, F_ONE_AND_PREFIX = 2, F_IS_ERR = 4, F_IS_LPMIN = 8, F_ONE_AND_INSIDE = 16 /* contains "1 && " but not as its prefix */ };
 struct strrec { int tag; int a; unsigned flags; };
 typedef unsigned char xmlChar;
 #include "lit_ids.h" /* GENERATED: LIT_<name> ids of the string literals of the slices */
@@ -40,6 +40,16 @@ public:
     string(const char* p) { r = *rec_of(p); }
     const char* c_str() const { return (const char*)&r; }
     size_t size() const { return 8; }
+    static const size_t npos = (size_t)-1;
+    /* find("1 && "): 0 if it is the prefix, some later position if it only occurs inside, npos otherwise */
+    size_t find(const char* lit) const
+    {
+        if (rec_of(lit)->tag == VS_LIT && rec_of(lit)->a == LIT_ONE_AND) {
+            if (r.flags & F_ONE_AND_PREFIX) return 0;
+            if (r.flags & F_ONE_AND_INSIDE) return 3;
+        }
+        return npos;
+    }
     string substr(size_t from, size_t n) const
     {
         string x;
